@@ -62,14 +62,17 @@ template <int W> static void pow_nodiv_w(Fq12& t, const Fq12& a, const uint8_t* 
 
 #if !defined(DISABLE_ASM) && (defined(__x86_64__) || defined(_M_X64_))
 #define JV_X86_ASM 1
+/* The six dispatch targets, named by symbol only (asm labels): the adapter does not repeat - and so cannot contradict - the prototypes the
+   library's own headers declare for them; whatever those say, these are the routines the dispatch table may point at. */
 extern "C" {
-    void embedded_pairing_core_arch_x86_64_fpbase_384_montgomery_reduce(void* res, void* a, const void* p, uint64_t inv_word);
-    void embedded_pairing_core_arch_x86_64_bmi2_adx_fpbase_384_montgomery_reduce(void* res, void* a, const void* p, uint64_t inv_word);
-    void embedded_pairing_core_arch_x86_64_bigint_768_multiply(void* res, const void* a, const void* b);
-    void embedded_pairing_core_arch_x86_64_bmi2_adx_bigint_768_multiply(void* res, const void* a, const void* b);
-    void embedded_pairing_core_arch_x86_64_bigint_768_square(void* res, const void* a);
-    void embedded_pairing_core_arch_x86_64_bmi2_adx_bigint_768_square(void* res, const void* a);
+    void jv_sym_redc(void) __asm__("embedded_pairing_core_arch_x86_64_fpbase_384_montgomery_reduce");
+    void jv_sym_redc_bmi2(void) __asm__("embedded_pairing_core_arch_x86_64_bmi2_adx_fpbase_384_montgomery_reduce");
+    void jv_sym_mul(void) __asm__("embedded_pairing_core_arch_x86_64_bigint_768_multiply");
+    void jv_sym_mul_bmi2(void) __asm__("embedded_pairing_core_arch_x86_64_bmi2_adx_bigint_768_multiply");
+    void jv_sym_sqr(void) __asm__("embedded_pairing_core_arch_x86_64_bigint_768_square");
+    void jv_sym_sqr_bmi2(void) __asm__("embedded_pairing_core_arch_x86_64_bmi2_adx_bigint_768_square");
 }
+#define JV_AS(ptr, sym) reinterpret_cast<decltype(ptr)>(&sym)
 /* Entry-state poisoning for the hand-written x86-64 routines. The System V ABI leaves the arithmetic flags and the caller-saved
    registers undefined at a call: a routine that consumes CF/OF (an adcx/adox chain started without clearing them) or a scratch register it
    never wrote works only as long as its callers happen to leave them clear. jv_x86_tramp calls fn(a0,a1,a2,a3) with CF and OF as chosen
@@ -233,13 +236,13 @@ void jv_info(jv_info_t* out) {
 int jv_set_dispatch(int bmi2) {
 #if JV_X86_ASM && !defined(__BMI2__)
     if (bmi2) {
-        ep::core::runtime_fpbase_384_montgomery_reduce = embedded_pairing_core_arch_x86_64_bmi2_adx_fpbase_384_montgomery_reduce;
-        ep::core::runtime_bigint_768_multiply = embedded_pairing_core_arch_x86_64_bmi2_adx_bigint_768_multiply;
-        ep::core::runtime_bigint_768_square = embedded_pairing_core_arch_x86_64_bmi2_adx_bigint_768_square;
+        ep::core::runtime_fpbase_384_montgomery_reduce = JV_AS(ep::core::runtime_fpbase_384_montgomery_reduce, jv_sym_redc_bmi2);
+        ep::core::runtime_bigint_768_multiply = JV_AS(ep::core::runtime_bigint_768_multiply, jv_sym_mul_bmi2);
+        ep::core::runtime_bigint_768_square = JV_AS(ep::core::runtime_bigint_768_square, jv_sym_sqr_bmi2);
     } else {
-        ep::core::runtime_fpbase_384_montgomery_reduce = embedded_pairing_core_arch_x86_64_fpbase_384_montgomery_reduce;
-        ep::core::runtime_bigint_768_multiply = embedded_pairing_core_arch_x86_64_bigint_768_multiply;
-        ep::core::runtime_bigint_768_square = embedded_pairing_core_arch_x86_64_bigint_768_square;
+        ep::core::runtime_fpbase_384_montgomery_reduce = JV_AS(ep::core::runtime_fpbase_384_montgomery_reduce, jv_sym_redc);
+        ep::core::runtime_bigint_768_multiply = JV_AS(ep::core::runtime_bigint_768_multiply, jv_sym_mul);
+        ep::core::runtime_bigint_768_square = JV_AS(ep::core::runtime_bigint_768_square, jv_sym_sqr);
     }
     return 0;
 #else
@@ -252,9 +255,9 @@ int jv_set_dispatch(int bmi2) {
 int jv_get_dispatch(void) {
 #if JV_X86_ASM && !defined(__BMI2__)
     int n = 0;
-    if (ep::core::runtime_fpbase_384_montgomery_reduce == embedded_pairing_core_arch_x86_64_bmi2_adx_fpbase_384_montgomery_reduce) n++;
-    if (ep::core::runtime_bigint_768_multiply == embedded_pairing_core_arch_x86_64_bmi2_adx_bigint_768_multiply) n++;
-    if (ep::core::runtime_bigint_768_square == embedded_pairing_core_arch_x86_64_bmi2_adx_bigint_768_square) n++;
+    if ((void*) ep::core::runtime_fpbase_384_montgomery_reduce == (void*) &jv_sym_redc_bmi2) n++;
+    if ((void*) ep::core::runtime_bigint_768_multiply == (void*) &jv_sym_mul_bmi2) n++;
+    if ((void*) ep::core::runtime_bigint_768_square == (void*) &jv_sym_sqr_bmi2) n++;
     return n == 3 ? 1 : (n == 0 ? 0 : 2);
 #else
     return -1;
@@ -290,9 +293,9 @@ int jv_prim(int op, void* out, const void* a, const void* b) {
         case JV_PR_BI384_SUB: fn = (void*) embedded_pairing_core_arch_x86_64_bigint_384_subtract; rv = jv_x86_tramp(fn, out, a, b, 0, fs); kind = 1; break;
         case JV_PR_BI384_SHL1: fn = (void*) embedded_pairing_core_arch_x86_64_bigint_384_multiply2; rv = jv_x86_tramp(fn, out, a, nullptr, 0, fs); kind = 2; break;
 #ifdef __BMI2__
-        case JV_PR_BI768_MUL: fn = (void*) embedded_pairing_core_arch_x86_64_bmi2_adx_bigint_768_multiply; rv = jv_x86_tramp(fn, out, a, b, 0, fs); break;
-        case JV_PR_BI768_SQR: fn = (void*) embedded_pairing_core_arch_x86_64_bmi2_adx_bigint_768_square; rv = jv_x86_tramp(fn, out, a, nullptr, 0, fs); break;
-        case JV_PR_FP384_REDC: { BigInt<768> tmp; memcpy(&tmp, a, 96); fn = (void*) embedded_pairing_core_arch_x86_64_bmi2_adx_fpbase_384_montgomery_reduce; rv = jv_x86_tramp(fn, out, &tmp, &qq, inv, fs); break; }
+        case JV_PR_BI768_MUL: fn = (void*) &jv_sym_mul_bmi2; rv = jv_x86_tramp(fn, out, a, b, 0, fs); break;
+        case JV_PR_BI768_SQR: fn = (void*) &jv_sym_sqr_bmi2; rv = jv_x86_tramp(fn, out, a, nullptr, 0, fs); break;
+        case JV_PR_FP384_REDC: { BigInt<768> tmp; memcpy(&tmp, a, 96); fn = (void*) &jv_sym_redc_bmi2; rv = jv_x86_tramp(fn, out, &tmp, &qq, inv, fs); break; }
 #else
         case JV_PR_BI768_MUL: fn = (void*) ep::core::runtime_bigint_768_multiply; rv = jv_x86_tramp(fn, out, a, b, 0, fs); break;
         case JV_PR_BI768_SQR: fn = (void*) ep::core::runtime_bigint_768_square; rv = jv_x86_tramp(fn, out, a, nullptr, 0, fs); break;
